@@ -161,8 +161,10 @@ def check(ctx):
         oracle = [t for t in toks if t.startswith("oracle=")]
         if oracle and oracle[0] != "oracle=pass":
             ctx.violation({"argv": argv, "impl_output": a, "model_output": b,
-                           "what": "assembled command line does not parse back to the argument vector under the "
-                                   "Microsoft rules (or a NUL was not rejected with ERROR_BAD_PATHNAME)",
+                           "what": ("assemble_cmdline panicked: Popen::create gives no command line for this vector"
+                                    if a.startswith("panic") else
+                                    "assembled command line does not parse back to the argument vector under the "
+                                    "Microsoft rules (or a NUL was not rejected with ERROR_BAD_PATHNAME)"),
                            "replay_cmd": f"./check C20 --replay <this file>"})
             if len(ctx.violations) >= 3:
                 break
